@@ -52,6 +52,9 @@ def cases(tier, seed):
             c["r"] = "none"  # a refined removal model has two epochs, which the library declines (known finding)
         if sub == "refine":
             c["split"] = str(rng.choice(["random", "on-psi-tip", "on-birth", "random"]))
+        if i % 9 == 4:
+            c["near_rho_tip"] = True
+            c["sampling"] = "mixed"
         if sub == "json":
             c["option"] = OPTIONS[(i // 7) % len(OPTIONS)]
             c["route"] = "json"
@@ -83,6 +86,12 @@ def build(case):
         th = np.where(rng.random(n) < 0.5, 0.0, rng.uniform(0.05, 3.0, n))
         th[int(rng.integers(n))] = 0.0
     th = [float(x) for x in th]
+    if case.get("near_rho_tip") and case["sampling"] == "mixed" and n >= 3:
+        # a psi-sampled tip a hair's breadth (2e-5 time units) above the rho-sampled tips at the present: near is not on
+        serial = [i for i, x in enumerate(th) if x > 0] or [n - 1]
+        th[serial[0]] = 2.0e-5
+        if all(x > 0 for x in th):
+            th[(serial[0] + 1) % n] = 0.0
     topo = rt.random_topology(n, rng)
     names = ["t%d" % i for i in range(n)]
     # interior rho-sampling: put some tips exactly on a common height which will be a boundary
